@@ -183,7 +183,15 @@ class Session:
         try:
             kids = open("/proc/%d/task/%d/children" % (self.shell, self.shell)).read().split()
         except OSError:
-            return False
+            kids = []           # no CONFIG_PROC_CHILDREN: look for the parent pid in every stat file
+            for name in os.listdir("/proc"):
+                if name.isdigit():
+                    try:
+                        st = open("/proc/%s/stat" % name).read()
+                        if int(st[st.rindex(")") + 2:].split()[1]) == self.shell:
+                            kids.append(name)
+                    except (OSError, ValueError, IndexError):
+                        pass
         known = set(self.pids.values())
         if any(int(k) not in known for k in kids):
             return False
@@ -194,7 +202,7 @@ class Session:
                 nr = open("/proc/%d/syscall" % self.shell).read().split()[0]
             except (OSError, IndexError):
                 return False
-            return state == "S" and nr in ("61", "247")
+            return state == "S" and nr in ("61", "247", "260", "95")     # wait4 / waitid (x86_64, aarch64)
         return True
 
     def shell_switches(self):
@@ -381,9 +389,9 @@ class Session:
 
 def main():
     cfg = json.load(sys.stdin)
-    cfg.setdefault("t_expect", 12.0)
+    cfg.setdefault("t_expect", 20.0)
     cfg.setdefault("t_stable", 1.0)
-    cfg.setdefault("t_max", 40.0)
+    cfg.setdefault("t_max", 60.0)
     s = Session(cfg)
     try:
         res = s.run()
